@@ -9,9 +9,31 @@
    is now a theorem without any guard.  mono_closed is still false because of one root cause that
    stays open (generic structs are never instantiated, KF-C17-5): its refutation is kept, and the
    parts of mono_closed that do hold are proved. *)
-From Aelys Require Import Base.Tactics Model.AirLower Model.Mono Model.AirTypes
-  Proofs.AirLowerProofs Proofs.AirLowerTargets Proofs.MonoProofs Proofs.AirTypesProofs.
+From Aelys Require Import Base.Tactics Extracted.MonoConsts Extracted.LowerFlags
+  Model.AirLower Model.AirLocals Model.Mono Model.AirTypes
+  Proofs.AirLowerProofs Proofs.AirLowerTargets Proofs.AirLocalsProofs Proofs.MonoProofs Proofs.MonoClosed Proofs.AirTypesProofs.
 Local Open Scope N_scope.
+
+(* ---------------------------------------------------------------- structure pinned by the translator *)
+(* The hand models assume the following about the source text of air/src/lower.rs and air/src/mono.rs;
+   tools/extractors/c17.py recomputes every flag from the current source on each run, so a change of
+   one of these pieces of code fails THIS obligation, independently of the end-to-end ties:
+     Model/Mono.v      subst descends under Param/Ptr/Array/Slice/FnPtr; unify looks through the same
+                       variants; type_to_string prints FnPtr structurally (key1); StructInit names are
+                       not renamed; instantiate/collect rounds; call sites rewritten per site;
+     Model/AirTypes.v  a type parameter in scope is looked up before the struct check;
+     Model/AirLower.v  finalize looks at the pending id; fixup_block_id_noop seals a pending block;
+                       lower_function saves/restores loop_stack, pending id, aliases, names (and
+                       type_params_map); struct declarations inside function bodies are lowered. *)
+Theorem C17_source_structure_assumed_by_the_models :
+  (SUBST_PARAM && SUBST_PTR && SUBST_ARRAY && SUBST_SLICE && SUBST_FNPTR
+   && UNIFY_PARAM && UNIFY_PTR && UNIFY_ARRAY && UNIFY_SLICE && UNIFY_FNPTR
+   && KEY_FNPTR_STRUCTURED && negb STRUCTINIT_RENAMED && MONO_ROUNDS_LOOP && REWRITE_PER_CALL_SITE
+   && NAME_PARAM_FIRST && NAME_STRUCT_CHECKED
+   && FINALIZE_CHECKS_PENDING && NOOP_SEALS_PENDING
+   && SAVES_LOOP_STACK && SAVES_TYPE_PARAMS && SAVES_PENDING && SAVES_ALIASES && SAVES_NAMES
+   && LOWERS_NESTED_STRUCT_DECL) = true.
+Proof. reflexivity. Qed.
 
 (* ---------------------------------------------------------------- lowering *)
 (* for EVERY program (no size bound, any nesting, break/continue anywhere): every lowered
@@ -49,6 +71,24 @@ Proof.
   split; [exact H1|]. repeat split; try exact H3; vm_compute; reflexivity.
 Qed.
 
+(* "every block ends in exactly one terminator": AirBlock has one terminator field (as the model's
+   block type), a block is only ever created by seal_block, which takes the terminator together
+   with all pending statements, and when a function is finished nothing emitted is left outside a
+   block and no block id is left pending *)
+Theorem C17_every_statement_ends_up_in_a_terminated_block :
+  (forall t s, dirty (seal t s) = false /\ exists id, blocks (seal t s) = (id, t) :: blocks s)
+  /\ (forall s, dirty (finalize s) = false /\ pending (finalize s) = None).
+Proof. split; [exact seal_takes_statements|exact finalize_clean]. Qed.
+
+(* ---------------------------------------------------------------- locals *)
+(* for EVERY program: in every lowered function each local id is declared exactly once (hence with
+   a single type), the parameter list has no duplicate and every parameter but the closure
+   environment is also declared, and every id mentioned by a statement or terminator is declared
+   in locals or is a parameter *)
+Theorem C17_locals_declared_once_and_every_mention_declared :
+  forall p, locals_wf (llower p) = true.
+Proof. exact llower_wf. Qed.
+
 (* ---------------------------------------------------------------- lowering of types *)
 (* a type parameter in scope wins over a struct of the same name (`struct T {..}` + `fn id<T>(x: T)`
    lowers x as T0; otherwise no instance could ever be inferred for id) *)
@@ -82,6 +122,33 @@ Theorem C17_mono_redirected_calls_exact :
     In f (p_fns (monomorphize p)) -> In (MCall (NMono n k) args) (m_body f) ->
     call_exact p (monomorphize p) f (MCall (NMono n k) args) = true.
 Proof. exact mono_redirected_calls_exact. Qed.
+
+(* UNBOUNDED mono_closed outside the two open classes.  [mono_input_ok] is a decidable predicate on
+   the program handed to monomorphize: no generic struct (excludes KF-C17-5), no non-generic
+   function mentioning a type parameter (excludes KF-C17-11: closures nested in generic functions),
+   every struct named exists, type parameters of a generic function's types are its own, constants
+   are closed, call sites name functions as written.  [calls_resolved] says that every call of a
+   generic function got an instance (it fails for type parameters that cannot be inferred from the
+   arguments and for polymorphic recursion beyond MAX_MONO_ROUNDS).  Then ALL clauses hold: no
+   function / local / cast mentions a type parameter, every struct named exists, reachable struct
+   fields are closed, every generic call targets the instance for exactly its argument types. *)
+Theorem C17_mono_closed_outside_open_classes :
+  forall p, mono_input_ok p = true -> calls_resolved p = true -> wf_mono p (monomorphize p) = true.
+Proof. exact mono_closed_outside_open_classes. Qed.
+
+(* the exclusions are the two open findings (witnesses), and the guard is met by non-trivial
+   programs (calls at two types, generic chains, the whole swept family) *)
+Theorem C17_mono_guard_excludes_exactly_the_open_classes :
+  mono_input_ok w_generic_struct = false
+  /\ mono_input_ok w_closure_in_generic = false
+  /\ wf_mono w_closure_in_generic (monomorphize w_closure_in_generic) = false.
+Proof. split; [exact generic_struct_excluded|exact closure_in_generic_excluded]. Qed.
+
+Example C17_mono_guard_nonvacuous :
+  mono_input_ok w_two_types = true /\ calls_resolved w_two_types = true
+  /\ mono_input_ok w_generic_calls_generic = true /\ calls_resolved w_generic_calls_generic = true
+  /\ forallb (fun b => mono_input_ok (prog_with b) && calls_resolved (prog_with b)) bodies = true.
+Proof. exact guard_nonvacuous. Qed.
 
 (* bounded (complete sweep; the bound is the family [bodies]: 9724 programs with the generic
    functions identity<T>(x), pick<T,U>(x,y) holding a struct literal, wrap<T>(x) calling identity,
